@@ -295,6 +295,7 @@ func TestC20Real(t *testing.T) {
 			RestoreMs: rapid.SampledFrom([]int{0, 400, 400}).Draw(rt, "restoreMs"),
 			LateMs:    rapid.SampledFrom([]int{20, 60, 120, 250}).Draw(rt, "lateMs"),
 		}
+		fmt.Printf("REAL-CASE %d %+v\n", n, p) // (a case that kills the process cannot report its parameters afterwards)
 		ops, snaps := runRealCluster(rt, dir, p)
 		col.Count("real_transport_cases", 1)
 		col.Count("real_transport_ops", ops)
